@@ -725,6 +725,8 @@ def interface_problems(prog, model, leaves, shapes):
         if i in in_nchw and len(want) == 4:
             want = [want[0], want[3], want[1], want[2]]
         got = _dims(g)
+        if np.dtype(pipeline.spec_dtype(dt, prog.x64)).kind == "c":
+            want = want + [2]  # documented representation of complex tensors: real pairs on a trailing axis
         if len(got) != len(want):
             probs.append(f"input {i} rank {len(got)} vs {len(want)}")
             continue
@@ -749,6 +751,8 @@ def interface_problems(prog, model, leaves, shapes):
         if i in out_nchw and len(want) == 4:
             want = [want[0], want[3], want[1], want[2]]
         got = _dims(o)
+        if np.dtype(leaf.dtype).kind == "c":
+            want = want + [2]  # complex results come back as real pairs on a trailing axis
         if len(got) != len(want):
             probs.append(f"output {i} rank {len(got)} vs {len(want)}")
         else:
